@@ -170,7 +170,7 @@ func (c *Ctx) Explore(cs Case) {
 				c.addViolation(v)
 			}
 		}
-		if cs.Sample && c.samples < 3 && len(c.Rep.Samples) < 6 {
+		if (cs.Sample || (c.samples == 0 && o != "")) && c.samples < 3 && len(c.Rep.Samples) < 6 {
 			c.samples++
 			c.Rep.Samples = append(c.Rep.Samples, map[string]interface{}{
 				"scenario": c.Scn.ID, "case": cs.Name, "choices": explore.ChoiceList(r), "outcome": o, "steps": r.Steps, "threads": r.Threads,
